@@ -238,8 +238,12 @@ type walkEvent struct {
 // evaluates branch conditions; step handles non-branch instructions and may
 // return an event, stop the walk, or report an error.
 func scenarioWalk(fn *ssa.Function, cond func(v ssa.Value) (bool, bool), step func(in ssa.Instruction) (ev *walkEvent, stop bool, err string)) ([]walkEvent, string) {
+	return scenarioWalkFrom(fn.Blocks[0], cond, step)
+}
+
+// scenarioWalkFrom is scenarioWalk starting at block b.
+func scenarioWalkFrom(b *ssa.BasicBlock, cond func(v ssa.Value) (bool, bool), step func(in ssa.Instruction) (ev *walkEvent, stop bool, err string)) ([]walkEvent, string) {
 	var evs []walkEvent
-	b := fn.Blocks[0]
 	for n := 0; n < 300; n++ {
 		for _, in := range b.Instrs {
 			switch x := in.(type) {
